@@ -38,7 +38,7 @@ def bound_for(sname, mode, rtol, problem=""):
     return k * (BOUND_STEP if mode == "two" else BOUND_DENSE)
 
 
-STIFF_FORCED = ("Prothero-Robinson", "dae x'=-x+z, 0=z-sin t", "dae x'=-x+z, 0=z+x-2cos(5t)")
+STIFF_FORCED = ("Prothero-Robinson", "dae x'=-x+z, 0=z-sin t", "dae x'=-x+z, 0=z+x-2cos(5t)", "dae x'=-x+z, 0=z-sin(2 pi t)")
 
 
 def families():
@@ -81,7 +81,20 @@ def families():
     F.append(("dae x'=-x+z, 0=z+x-2cos(5t)", nDAE(M, lambda t, y, p, w=w: np.array([-y[0] + y[1], y[1] + y[0] - 2 * np.cos(w * t)]),
                                                   lambda t, y, p: csc_array(np.array([[-1.0, 1.0], [1.0, 1.0]])), {}),
               np.array([xw(0.0), 2.0 - xw(0.0)]), lambda t, w=w: np.array([xw(t), 2 * np.cos(w * t) - xw(t)]), 0.0, 3.0))
+    # the slope vanishes at the start and the forcing has a period that divides the span: y'(t0) = 0 says nothing about the scale of
+    # the solution, and F(tend, y0) = F(t0, y0)
+    w2 = 2 * np.pi
+    xz = lambda t, w=w2: (w * np.exp(-t) + np.sin(w * t) - w * np.cos(w * t)) / (1 + w * w)
+    F.append(("y'=-y+sin(2 pi t) from rest", nDAE(csc_array(np.eye(1)), lambda t, y, p, w=w2: -y + np.sin(w * t),
+                                                  lambda t, y, p: csc_array(np.array([[-1.0]])), {}),
+              np.array([0.0]), lambda t: np.array([xz(t)]), 0.0, 10.0))
+    F.append(("dae x'=-x+z, 0=z-sin(2 pi t) from rest", nDAE(M, lambda t, y, p, w=w2: np.array([-y[0] + y[1], y[1] - np.sin(w * t)]),
+                                                             lambda t, y, p: csc_array(np.array([[-1.0, 1.0], [0.0, 1.0]])), {}),
+              np.array([0.0, 0.0]), lambda t, w=w2: np.array([xz(t), np.sin(w * t)]), 0.0, 10.0))
     return F
+
+
+ZERO_SLOPE_DAE = "dae x'=-x+z, 0=z-sin(2 pi t) from rest"
 
 
 def ramp_model_backends(tmp):
@@ -128,6 +141,7 @@ def run(rep, tier, seed):
     failed = rep.add_proof(prove("C08"))
     rng = np.random.default_rng(seed)
     fails, diffs, broken, known = [], [], [], []
+    known32 = []
     # ---- trace invariants + controller replay
     P = RC.problems()
     lines, expect, cases = [], [], []
@@ -174,9 +188,11 @@ def run(rep, tier, seed):
                ("ode15s", lambda d, ts, y, o: ode15s(d, ts, y, Opt(**o)))]
     fam = families()
     if tier == "quick":
-        fam = [f for i, f in enumerate(fam) if i in (0, 2, 4, 5, 7, 8, 10, 11)]
+        fam = [f for i, f in enumerate(fam) if i in (0, 2, 4, 5, 7, 8, 10, 11, 12, 13)]
     for name, dae, y0, exact, t0, tend in fam:
         for rtol, atol in tols:
+            if name.endswith("from rest"):
+                atol = rtol          # the solution oscillates through zero: an absolute tolerance on the scale of its amplitude (0.16)
             for mode in ("two", "dense"):
                 tspan = [t0, tend] if mode == "two" else list(np.linspace(t0, tend, 41))
                 for sname, solver in solvers:
@@ -196,12 +212,14 @@ def run(rep, tier, seed):
                         in_recorded_class = mode == "dense" and sname != "ode15s" and name.startswith(STIFF_FORCED)
                         if in_recorded_class:
                             known.append((case, ratio))
+                        elif sname == "ode15s" and name == ZERO_SLOPE_DAE:
+                            known32.append((case, ratio))
                         else:
                             fails.append((case, f"{sname} on {name}: error / (atol + rtol|y|) = {ratio:.3g} at t = {at} exceeds {bound} "
                                                 f"(rtol {rtol:g}, {mode}-node tspan)"))
     # ---- ode15s with a user hmax well below the tolerance-driven step (the step stays pinned while the order changes)
     for name, dae, y0, exact, t0, tend in fam:
-        if name.startswith(STIFF_FORCED):
+        if name.startswith(STIFF_FORCED) or name.endswith("from rest"):
             continue
         for hm in ((0.05,) if tier == "quick" else (0.1, 0.05, 0.02)):
             for mode in ("two", "dense"):
@@ -324,7 +342,15 @@ def run(rep, tier, seed):
     rep.cov["worst_ratio_table"] = {"/".join(map(str, k)): round(v, 3) for k, v in sorted(table.items())}
     rep.cov["trace_records_checked"] = nrec
     rep.cov["traces_validated_against_impl"] = len(lines) - len(diffs)
-    kf = known_findings("C08")
+    kf_all = known_findings("C08")
+    kf32 = [e for e in kf_all if e.get("id") == "D32"]
+    kf = [e for e in kf_all if e.get("id") != "D32"]
+    if known32 and kf32:
+        rep.known("D32", kf32[0]["line"].split("property=C08 ", 1)[1] + f"; {len(known32)} runs of this check fall in the recorded class, worst ratio "
+                                                                       f"{max(r for _, r in known32):.3g}")
+    else:
+        for case, r in known32[:2]:
+            fails.append((case, f"ode15s on an index-1 DAE started from rest with periodic forcing: error/(atol+rtol|y|) = {r:.3g}"))
     if known and kf:
         rep.known("dense-stiff-forced", kf[0]["line"].split("property=C08 ", 1)[1] + f"; worst ratio this run {max(r for _, r in known):.3g}")
     elif known:
